@@ -246,6 +246,12 @@ func (pConn *PFCPConn) handleAssociationReleaseRequest(msg message.Message) (mes
 	return arres, nil
 }
 
+func pfdContentsFields(i *ie.IE) (fields *ie.PFDContentsFields, err error) {
+	defer recoverMalformedIE(&err)
+
+	return i.PFDContents()
+}
+
 func (pConn *PFCPConn) handlePFDMgmtRequest(msg message.Message) (message.Message, error) {
 	pfdmreq, ok := msg.(*message.PFDManagementRequest)
 	if !ok {
@@ -286,7 +292,7 @@ func (pConn *PFCPConn) handlePFDMgmtRequest(msg message.Message) (message.Messag
 		}
 
 		for _, pfdContent := range pfdCtx {
-			fields, err := pfdContent.PFDContents()
+			fields, err := pfdContentsFields(pfdContent)
 			if err != nil {
 				pConn.RemoveAppPFD(id)
 				return errUnmarshalReply(err, appIDPFD)
